@@ -216,7 +216,7 @@ func (SMRespEngine) Gen(prop, tier string, seed uint64, yield func(c any) bool) 
 		}
 	}
 	// part 2: seeded adversarial deliveries over histories
-	n := 40000
+	n := 120000
 	if tier == "thorough" {
 		n = 6000000
 	}
